@@ -110,10 +110,73 @@ fn lifecycle(p: &HashMap<String, String>) {
     }
 }
 
+// ---- fall-through scenarios (C07 / C15 / C16): trait shapes {default body?} x {unmock function?}
+#[unimock(api = T00Mock)]
+trait T00 {
+    fn m(&self, x: i32) -> String;
+}
+#[unimock(api = T10Mock)]
+trait T10 {
+    fn req(&self) -> i32;
+    fn m(&self, x: i32) -> String {
+        format!("default({x})")
+    }
+}
+#[unimock(api = T01Mock, unmock_with = [real01])]
+trait T01 {
+    fn m(&self, x: i32) -> String;
+}
+fn real01(_: &impl T01, x: i32) -> String {
+    format!("real({x})")
+}
+#[unimock(api = T11Mock, unmock_with = [_, real11])]
+trait T11 {
+    fn req(&self) -> i32;
+    fn m(&self, x: i32) -> String {
+        format!("default({x})")
+    }
+}
+fn real11(_: &impl T11, x: i32) -> String {
+    format!("real({x})")
+}
+
+macro_rules! fallthrough_case {
+    ($p:expr, $mock:ident, $tr:ident) => {{
+        let partial = flag($p, "partial");
+        let mention = $p.get("mention").cloned().unwrap_or_else(|| "none".into());
+        let mk = |c: &dyn Fn() -> Unimock| c();
+        let u = match (mention.as_str(), partial) {
+            ("none", false) => mk(&|| Unimock::new(())),
+            ("none", true) => mk(&|| Unimock::new_partial(())),
+            (_, false) => mk(&|| Unimock::new($mock::m.each_call(matching!(1)).returns("mock").at_least_times(0))),
+            (_, true) => mk(&|| Unimock::new_partial($mock::m.each_call(matching!(1)).returns("mock").at_least_times(0))),
+        }
+        .no_verify_in_drop();
+        let arg = if mention == "match" { 1 } else { 5 };
+        let r = catch_unwind(AssertUnwindSafe(|| <Unimock as $tr>::m(&u, arg)));
+        match r {
+            Ok(v) => obs("ok", &v),
+            Err(e) => obs("panic", &panic_msg(e)),
+        }
+    }};
+}
+
+/// fallthrough: trait=00|10|01|11 partial=0|1 mention=none|nomatch|match
+fn fallthrough(p: &HashMap<String, String>) {
+    std::panic::set_hook(Box::new(|_| {}));
+    match p.get("trait").map(|s| s.as_str()).unwrap_or("00") {
+        "00" => fallthrough_case!(p, T00Mock, T00),
+        "10" => fallthrough_case!(p, T10Mock, T10),
+        "01" => fallthrough_case!(p, T01Mock, T01),
+        _ => fallthrough_case!(p, T11Mock, T11),
+    }
+}
+
 fn main() {
     let (sc, p) = args();
     match sc.as_str() {
         "lifecycle" => lifecycle(&p),
+        "fallthrough" => fallthrough(&p),
         _ => {
             eprintln!("unknown scenario {sc}");
             std::process::exit(3)
